@@ -18,6 +18,8 @@ package main
 //     derived from it (S256 / plain), the verifier presented at redemption is the one stored for the presented login,
 //     and the provider accepted it exactly when the code belongs to that login
 //   - no verifier, challenge, OIDC nonce or state nonce (sent form and raw form) repeats over the whole run
+//   - entropy faults (sequential phase, crypto/rand.Reader failing selected reads): a login start is refused or carries
+//     fresh, non-degenerate values
 //   - leak monitor: the raw OIDC nonce, the raw state nonce and (S256) the verifier never occur — raw, hex, base64
 //     std/url, padded or not — in any header or body sent to the browser, also not inside base64-decodable header fields.
 
@@ -25,12 +27,14 @@ import (
 	"bytes"
 	"crypto/aes"
 	"crypto/cipher"
+	crand "crypto/rand"
 	"crypto/sha256"
 	"encoding/base64"
 	"encoding/hex"
 	"errors"
 	"fmt"
 	"html"
+	"io"
 	mrand "math/rand"
 	"net/http"
 	"net/url"
@@ -117,6 +121,9 @@ type c05Cfg struct {
 	// was built ("" = the default S256+plain). The CONFIGURED method is what the property speaks about: whatever the
 	// provider advertises, the authorization request must carry that method.
 	Advertised string
+	// Provider: "" = the generic oidc provider; otherwise an OIDC-derived provider type (entra-id, keycloak-oidc, adfs)
+	// built against the same fake identity provider: the nonce rule is the same for all of them.
+	Provider string
 }
 
 func (c c05Cfg) Label() string {
@@ -128,6 +135,9 @@ func (c c05Cfg) Label() string {
 	if c.Advertised != "" {
 		l += ",provider-advertises=" + c.Advertised
 	}
+	if c.Provider != "" {
+		l += ",provider=" + c.Provider
+	}
 	return l
 }
 
@@ -135,12 +145,18 @@ type c05Inst struct {
 	Cfg  c05Cfg
 	P    *vfProxy
 	Lean bool // reduced behaviour x shape grid (the instance exists for the method/leak monitors)
+	// IdentExtra: extra ID-token claims every identity of this instance carries (entra-id: a Microsoft-shaped `iss`;
+	// keycloak-oidc: a marker that makes the fake provider hand out a JWT access token)
+	IdentExtra map[string]interface{}
+	// ADFSState: the adfs provider query-escapes the state once more (an AD FS server undoes that before redirecting back)
+	ADFSState bool
 }
 
 type c05Login struct {
 	ID          string
 	Inst        *c05Inst
-	State       string
+	State       string // as the provider hands it back to the callback
+	AuthState   string // as the provider recorded it in the authorization request
 	StateNonce  string
 	SentNonce   string // the nonce parameter of the authorization request ("" = not sent)
 	Challenge   string
@@ -156,15 +172,32 @@ type c05Login struct {
 
 var c05Seq int64
 
-func c05Start(inst *c05Inst, b *vfBrowser, id string) (*c05Login, error) {
+func c05Ident(inst *c05Inst) vfIdentity {
 	n := atomic.AddInt64(&c05Seq, 1)
-	ident := vfIdentity{Sub: fmt.Sprintf("u-c05-%d", n), Email: fmt.Sprintf("c05-%d@example.com", n), PreferredUsername: fmt.Sprintf("c05-pu-%d", n), Groups: []string{"g"}}
+	return vfIdentity{Sub: fmt.Sprintf("u-c05-%d", n), Email: fmt.Sprintf("c05-%d@example.com", n), PreferredUsername: fmt.Sprintf("c05-pu-%d", n), Groups: []string{"g"}, Extra: inst.IdentExtra}
+}
+
+func c05Start(inst *c05Inst, b *vfBrowser, id string) (*c05Login, error) {
+	ident := c05Ident(inst)
+	n := atomic.AddInt64(&c05Seq, 1)
 	l, err := b.StartLogin(inst.P, ident, fmt.Sprintf("/app/c05/%d?k=%d", n, n))
 	if err != nil {
 		return nil, err
 	}
-	out := &c05Login{ID: id, Inst: inst, State: l.State, LoginURL: l.LoginURL, Ident: ident, Start: l.StartResp,
+	return c05FromStart(inst, l, ident, id)
+}
+
+// c05FromStart turns the response that started a login (and the provider's record of the authorization request) into a c05Login.
+func c05FromStart(inst *c05Inst, l *vfLogin, ident vfIdentity, id string) (*c05Login, error) {
+	out := &c05Login{ID: id, Inst: inst, State: l.State, AuthState: l.State, LoginURL: l.LoginURL, Ident: ident, Start: l.StartResp,
 		SentNonce: l.AuthReq.Params.Get("nonce"), Challenge: l.AuthReq.Params.Get("code_challenge"), ChMethod: l.AuthReq.Params.Get("code_challenge_method")}
+	if inst.ADFSState {
+		u, err := url.QueryUnescape(out.State)
+		if err != nil {
+			return nil, fmt.Errorf("adfs state %q: %v", out.State, err)
+		}
+		out.State = u
+	}
 	st := out.State
 	if inst.P.Opts.EncodeState {
 		b, err := base64.RawURLEncoding.DecodeString(st)
@@ -366,6 +399,7 @@ func (cw *c05World) install() {
 			}
 			sc.setFinal(claims["nonce"])
 		}
+		c.TokenResponseMutate = c05TokenResponse
 		c.MintOverride = func(grant string, claims map[string]interface{}) (string, bool) {
 			if k, ok := claims["vf_c05_capture"].(string); ok {
 				delete(claims, "vf_c05_capture")
@@ -390,7 +424,21 @@ func (cw *c05World) install() {
 }
 
 func (cw *c05World) uninstall() {
-	cw.W.IdP.Set(func(c *vfIdPCfg) { c.MutateIDClaims, c.MintOverride = nil, nil })
+	cw.W.IdP.Set(func(c *vfIdPCfg) { c.MutateIDClaims, c.MintOverride, c.TokenResponseMutate = nil, nil, nil })
+}
+
+const c05JWTAccessTokenClaim = "vf_c05_jwt_access_token"
+
+// c05TokenResponse: keycloak-oidc reads roles from the access token, which therefore has to be a JWT this issuer signed:
+// identities of such instances carry a marker claim, and the access token becomes the (validly signed) ID token itself.
+func c05TokenResponse(grant string, resp map[string]interface{}) {
+	idt, _ := resp["id_token"].(string)
+	if idt == "" {
+		return
+	}
+	if m, _ := vfJWTClaims(idt)[c05JWTAccessTokenClaim].(bool); m {
+		resp["access_token"] = idt
+	}
 }
 
 // checkStart judges the authorization request of a freshly started login as the provider recorded it: with a method
@@ -757,6 +805,146 @@ func (cw *c05World) unit(inst *c05Inst, beh c05Beh, shape c05Shape, cross bool, 
 }
 
 // ---------------------------------------------------------------------------------------------------------
+// entropy faults: a login must not start with a predictable verifier or nonce when the random source fails
+
+type c05FaultyRand struct {
+	real  io.Reader
+	size  int  // fail every read of exactly this many bytes (0 = off)
+	kth   int  // fail the k-th read (1-based; 0 = off)
+	short bool // deliver half of the bytes before failing
+	n     int
+	fired int
+	sizes []int
+}
+
+func (f *c05FaultyRand) Read(p []byte) (int, error) {
+	f.n++
+	f.sizes = append(f.sizes, len(p))
+	if (f.size != 0 && len(p) == f.size) || (f.kth != 0 && f.n == f.kth) {
+		f.fired++
+		if f.short && len(p) > 1 {
+			k, _ := io.ReadFull(f.real, p[:len(p)/2])
+			return k, errors.New("c05: injected entropy failure (short read)")
+		}
+		return 0, errors.New("c05: injected entropy failure")
+	}
+	return f.real.Read(p)
+}
+
+// c05Degenerate: 16 or more consecutive zero bytes cannot come out of a working random source (p < 2^-120).
+func c05Degenerate(b []byte) bool {
+	run := 0
+	for _, c := range b {
+		if c == 0 {
+			if run++; run >= 16 {
+				return true
+			}
+		} else {
+			run = 0
+		}
+	}
+	return false
+}
+
+// entropyFaults runs strictly sequentially with no request in flight: crypto/rand.Reader (a package variable) is replaced
+// around single /start requests by a reader that fails selected reads. Each such start must be refused (error status, no
+// CSRF cookie, no redirect to the provider) or carry fresh, non-degenerate random values (also fed to the uniqueness rules).
+func (cw *c05World) entropyFaults(insts []*c05Inst) {
+	run := cw.Run
+	_ = cw.W.IdP.EventCount("authorize") // orders the provider's earlier use of the random source before the swap
+	real := crand.Reader
+	defer func() { crand.Reader = real }()
+	type plan struct {
+		size, kth int
+		short     bool
+	}
+	var plans []plan
+	for _, short := range []bool{false, true} {
+		for _, size := range []int{96, 32, 16} {
+			plans = append(plans, plan{size: size, short: short})
+		}
+		for k := 1; k <= 6; k++ {
+			plans = append(plans, plan{kth: k, short: short})
+		}
+	}
+	seq := 0
+	for _, inst := range insts {
+		c := inst.Cfg
+		if c.Advertised != "" || c.Provider != "" || c.SkipNonce {
+			continue
+		}
+		for _, pl := range plans {
+			for rep := 0; rep < 2; rep++ {
+				seq++
+				f := &c05FaultyRand{real: real, size: pl.size, kth: pl.kth, short: pl.short}
+				req := vfGET(inst.P.Opts.ProxyPrefix + "/start?rd=" + vfQueryEscape(fmt.Sprintf("/app/c05/entropy/%d", seq)))
+				crand.Reader = f
+				resp := inst.P.Do(req)
+				crand.Reader = real
+				what := fmt.Sprintf("fail every %d-byte read", pl.size)
+				if pl.kth != 0 {
+					what = fmt.Sprintf("fail read #%d", pl.kth)
+				}
+				if pl.short {
+					what += " after half of the bytes"
+				}
+				run.Count("entropy_fault_starts", 1)
+				run.Count("entropy_faults_fired", int64(f.fired))
+				det := map[string]interface{}{"flags": inst.P.Flags, "request": req, "fault": what, "reads_of_the_random_source_during_the_request": f.sizes, "faults_fired": f.fired,
+					"status": resp.Code, "location": resp.Location(), "set_cookie": resp.SetCookies()}
+				fired := "fault-fired"
+				if f.fired == 0 {
+					fired = "fault-not-reached"
+				}
+				var csrfSet []string
+				for _, sc := range resp.SetCookies() {
+					if ck, err := http.ParseSetCookie(sc); err == nil && strings.HasSuffix(ck.Name, "_csrf") && ck.MaxAge >= 0 && ck.Value != "" {
+						csrfSet = append(csrfSet, ck.Name)
+					}
+				}
+				if resp.Code != 302 {
+					run.Eval(fmt.Sprintf("%s|entropy|%s|%s|refused", c.Label(), what, fired))
+					run.Count("entropy_fault_starts_refused", 1)
+					if resp.Code < 400 || len(csrfSet) > 0 || resp.Location() != "" {
+						run.Violation("c05:refused-login-start-not-clean", fmt.Sprintf("[%s] %s: the start answered %d with CSRF cookie(s) %v and Location %q", c.Label(), what, resp.Code, csrfSet, resp.Location()), det)
+					}
+					if f.fired == 0 {
+						run.Violation("c05:bound-login-rejected", fmt.Sprintf("[%s] login start refused (%d) although no entropy fault was injected during it", c.Label(), resp.Code), det)
+					}
+					continue
+				}
+				run.Eval(fmt.Sprintf("%s|entropy|%s|%s|started", c.Label(), what, fired))
+				run.Count("entropy_fault_starts_proceeded", 1)
+				ident := c05Ident(inst)
+				vl, err := vfNewBrowser("").continueLogin(inst.P, ident, resp)
+				if err != nil {
+					c05Rig(run, "entropy phase [%s]: %v", c.Label(), err)
+					continue
+				}
+				l, err := c05FromStart(inst, vl, ident, fmt.Sprintf("entropy-%d", seq))
+				if err != nil || l.Raw == nil {
+					run.Violation("c05:login-started-with-unusable-csrf-cookie", fmt.Sprintf("[%s] %s: the login was started (302) but its CSRF cookie is missing or cannot be opened with the cookie secret (%v)", c.Label(), what, err), det)
+					continue
+				}
+				det["stored_verifier"] = l.Raw.CV
+				if c.Method != "" {
+					dec, derr := base64.RawURLEncoding.DecodeString(l.Raw.CV)
+					if derr == nil && c05Degenerate(dec) || l.Raw.CV == "" || strings.Count(l.Raw.CV, l.Raw.CV[:1]) == len(l.Raw.CV) {
+						run.Violation("c05:login-started-with-degenerate-verifier", fmt.Sprintf("[%s] %s: the login was started with the verifier %q (not random: the failed read left zero bytes)", c.Label(), what, vfTrunc(l.Raw.CV, 140)), det)
+					}
+				}
+				if c05Degenerate(l.Raw.N) || c05Degenerate(l.Raw.S) || len(l.Raw.N) < 16 || len(l.Raw.S) < 16 {
+					run.Violation("c05:login-started-with-degenerate-nonce", fmt.Sprintf("[%s] %s: the login was started with OIDC nonce %x / state nonce %x (not random: the failed read left zero bytes)", c.Label(), what, l.Raw.N, l.Raw.S), det)
+				}
+				cw.addLogin(l) // method rule now, uniqueness / derivation rules in the history pass
+				run.Count("logins_started", 1)
+			}
+		}
+	}
+	run.Extra("entropy_fault_plans", len(plans))
+}
+
+// ---------------------------------------------------------------------------------------------------------
 // history monitors
 
 func (cw *c05World) history() {
@@ -769,7 +957,7 @@ func (cw *c05World) history() {
 	// 1. authorization requests, as the provider recorded them
 	byURL := map[string]*c05Login{}
 	for _, l := range logins {
-		byURL[l.State] = l
+		byURL[l.AuthState] = l
 	}
 	nAuth := 0
 	seenReq := map[string]bool{}
@@ -822,6 +1010,7 @@ func (cw *c05World) history() {
 		seen[kind][val] = l.ID
 		run.Count("distinct_"+strings.ReplaceAll(kind, " ", "_")+"_values", 1)
 	}
+	words := map[string]string{}
 	for _, l := range logins {
 		cfg := l.Inst.Cfg
 		uniq("sent nonce", l.SentNonce, l)
@@ -834,6 +1023,21 @@ func (cw *c05World) history() {
 		run.Count("csrf_cookies_opened", 1)
 		uniq("raw OIDC nonce", string(l.Raw.N), l)
 		uniq("raw state nonce", string(l.Raw.S), l)
+		// finer grain: no aligned 8-byte word of any nonce may ever re-occur (birthday bound for 10^6 words: < 10^-7); a
+		// generator that hands the same output block to two concurrent logins shows up here even when the 32-byte values
+		// only overlap in part
+		for _, part := range [][]byte{l.Raw.N, l.Raw.S} {
+			for k := 0; k+8 <= len(part); k += 8 {
+				w := string(part[k : k+8])
+				if prev, ok := words[w]; ok && prev != l.ID {
+					run.Violation("c05:nonce-material-repeated", fmt.Sprintf("8 random bytes (%x) of a nonce of login %s [%s] already occurred in a nonce of login %s: the values are not drawn independently", w, l.ID, cfg.Label(), prev),
+						map[string]interface{}{"flags": l.Inst.P.Flags, "bytes": fmt.Sprintf("%x", w), "logins": []string{prev, l.ID}, "oidc_nonce": fmt.Sprintf("%x", l.Raw.N), "state_nonce": fmt.Sprintf("%x", l.Raw.S), "login_url": l.LoginURL})
+				} else {
+					words[w] = l.ID
+				}
+			}
+		}
+		run.Count("nonce_words_checked", int64(len(l.Raw.N)/8+len(l.Raw.S)/8))
 		uniq("verifier", l.Raw.CV, l)
 		if l.SentNonce != "" && l.SentNonce == c05Hash(l.Raw.N) {
 			run.Count("sent_nonce_is_b64url_sha256_of_cookie_nonce", 1)
@@ -925,7 +1129,7 @@ func c05LeakSelfTest(t *testing.T) {
 
 func TestVerif_C05(t *testing.T) {
 	run := vfNewRun(t, "C05", "exploration")
-	run.SetRule("12 configurations (code-challenge method none/S256/plain x skip-nonce on/off x csrf-per-request on/off) + 5 instances built while the provider's discovery advertises other code_challenge_methods_supported than the configured method ([plain], [], [S512], [plain,S512] with S256 configured; [S256] with plain configured; reduced grid); per configuration every provider nonce behaviour (19: echo, this/other login's nonce, empty, absent, null, raw in 4 notations, prefix/extended/padded/case-swapped hash, hash of hash, state nonce, list, number, replayed previous ID token) " +
+	run.SetRule("12 configurations (code-challenge method none/S256/plain x skip-nonce on/off x csrf-per-request on/off) + 5 instances built while the provider's discovery advertises other code_challenge_methods_supported than the configured method ([plain], [], [S512], [plain,S512] with S256 configured; [S256] with plain configured; reduced grid) + 5 OIDC-derived provider instances (entra-id with one / several / no allowed tenants, keycloak-oidc, adfs; nonce checking on; nonce-focused grid) + a sequential entropy-fault phase (26 fault plans x 2 starts on every default-discovery oidc instance with nonce checking); per configuration every provider nonce behaviour (19: echo, this/other login's nonce, empty, absent, null, raw in 4 notations, prefix/extended/padded/case-swapped hash, hash of hash, state nonce, list, number, replayed previous ID token) " +
 		"x login shape (sequential, overlapping fifo/lifo, nested; more in thorough) x {own code, code of another login}; plus bulk login starts for the uniqueness / RFC 7636 / challenge monitors over the provider log. " +
 		"cell = (method, skip-nonce, per-request, behaviour, shape, own/other code, expected); non-trivial = every callback")
 	run.Assume("the fake provider verifies PKCE like a real one (challenge stored per code, recomputed from the presented verifier)",
@@ -996,7 +1200,31 @@ func TestVerif_C05(t *testing.T) {
 		}
 		insts = append(insts, &c05Inst{Cfg: cfg, P: p, Lean: true})
 	}
-	leanBeh := map[string]bool{"echo": true, "other-logins-nonce": true, "absent": true, "raw-base64url": true, "previous-logins-id-token-replayed": true}
+	// OIDC-derived providers built against the same fake identity provider (nonce checking on): the nonce rule is the same
+	const tid = "85d7d600-7804-4d92-8d43-9c33c21c130c"
+	entraIss := map[string]interface{}{"iss": "https://login.microsoftonline.com/" + tid + "/v2.0", "tid": tid}
+	for k, pv := range []struct {
+		name   string
+		flags  []string
+		extra  map[string]interface{}
+		method string
+		adfs   bool
+	}{
+		{"entra-id/allowed-tenant", []string{"--provider=entra-id", "--insecure-oidc-skip-issuer-verification=true", "--entra-id-allowed-tenant=" + tid}, entraIss, "", false},
+		{"entra-id/allowed-tenants+S256", []string{"--provider=entra-id", "--insecure-oidc-skip-issuer-verification=true", "--entra-id-allowed-tenant=11111111-2222-3333-4444-555555555555", "--entra-id-allowed-tenant=" + tid, "--code-challenge-method=S256"}, entraIss, "S256", false},
+		{"entra-id/any-tenant", []string{"--provider=entra-id", "--insecure-oidc-skip-issuer-verification=true"}, entraIss, "", false},
+		{"keycloak-oidc", []string{"--provider=keycloak-oidc"}, map[string]interface{}{c05JWTAccessTokenClaim: true, "email_verified": true}, "", false}, // every claim in the token: no profile-URL fetch with the JWT access token
+		{"adfs", []string{"--provider=adfs"}, nil, "", true},
+	} {
+		pr := (k+int(run.Env.Seed))%2 == 1
+		cfg := c05Cfg{Method: pv.method, SkipNonce: false, PerReq: pr, Provider: pv.name}
+		p, err := w.NewProxy(append([]string{"--insecure-oidc-skip-nonce=false", "--cookie-csrf-per-request=" + strconv.FormatBool(pr)}, pv.flags...)...)
+		if err != nil {
+			t.Fatalf("%s: %v", cfg.Label(), err)
+		}
+		insts = append(insts, &c05Inst{Cfg: cfg, P: p, Lean: true, IdentExtra: pv.extra, ADFSState: pv.adfs})
+	}
+	leanBeh := map[string]bool{"echo": true, "this-logins-nonce": true, "other-logins-nonce": true, "empty-string": true, "absent": true, "null": true, "raw-base64url": true, "hash-prefix": true, "previous-logins-id-token-replayed": true}
 	leanShape := map[string]bool{"sequential": true, "overlap-lifo": true}
 	type job struct {
 		inst  *c05Inst
@@ -1032,6 +1260,9 @@ func TestVerif_C05(t *testing.T) {
 	bulk := run.Env.Pick(150, 1500)
 	vfParallel(len(insts)*bulk, 16, func(i int) {
 		inst := insts[i%len(insts)]
+		if inst.Lean && (i/len(insts))%3 != 0 {
+			return // a third of the bulk for the secondary instances
+		}
 		l, err := c05Start(inst, vfNewBrowser(""), fmt.Sprintf("bulk-%d", i))
 		if err != nil {
 			c05Rig(run, "bulk start [%s]: %v", inst.Cfg.Label(), err)
@@ -1047,7 +1278,13 @@ func TestVerif_C05(t *testing.T) {
 			run.Count("responses_scanned_for_leaks", 1)
 		}
 	})
+	cw.entropyFaults(insts)
 	cw.history()
+	if run.Counter("entropy_fault_starts_refused") == 0 || run.Counter("entropy_faults_fired") == 0 {
+		run.Inconclusive("the entropy-fault phase injected no fault / saw no refused start")
+		fmt.Printf("INCONCLUSIVE property=C05 reason=entropy-fault phase without events\n")
+		t.Fail()
+	}
 	if run.Counter("verifiers_checked") == 0 || run.Counter("token_requests_checked") == 0 || run.Counter("own_redemptions_verified_by_provider") == 0 || run.Counter("cross_redemptions_rejected_by_provider") == 0 || run.Counter("authorization_requests_of_instances_with_nondefault_discovery") == 0 {
 		run.Inconclusive("a history monitor saw no events")
 		fmt.Printf("INCONCLUSIVE property=C05 reason=history monitor without events\n")
